@@ -325,15 +325,21 @@ def run_nostats(cfg):
     viol = []
     ob = 0
     for path in ('a.npy', 'a.npz', 'a.bin'):
-        ob += 1
-        FS.files = {}
-        try:
-            S().save(path)
-            viol.append(dict(kind='nostats', what='save without statistics did not raise (%s)' % path, **{'class': 'nostats'}))
-        except ValueError:
-            pass
-        except Exception as e:
-            viol.append(dict(kind='nostats', what='save without statistics raised %s' % type(e).__name__, **{'class': 'nostats'}))
+        # a fresh object, and an object whose statistics table exists but counts zero vectors (loaded from a
+        # zero-initialised file, nothing accumulated since)
+        for table in (False, True):
+            ob += 1
+            FS.files = {}
+            try:
+                st = S()
+                if table:
+                    st._stats = np.zeros((2, 3), dtype=np.float64)
+                st.save(path)
+                viol.append(dict(kind='nostats', table=table, what='save without statistics did not raise (%s%s)' % (path, ', zero-count table' if table else ''), **{'class': 'nostats/%s' % table}))
+            except ValueError:
+                pass
+            except Exception as e:
+                viol.append(dict(kind='nostats', table=table, what='save without statistics raised %s' % type(e).__name__, **{'class': 'nostats/%s' % table}))
     return dict(obligations=ob, discharged=ob - len(viol), violations=viol, samples=[{'config': 'nostats'}], twin=True)
 
 
@@ -482,6 +488,12 @@ def replay(w):
         if w['kind'] == 'nostats':
             for name in ('a.npy', 'a.npz', 'a.bin'):
                 try:
+                    if w.get('table'):
+                        zp = os.path.join(work, 'zero.npy')
+                        np.save(zp, np.zeros((2, 3)))
+                        st0 = Standardize(rfilename=zp)       # a statistics table that counts zero vectors
+                        st0.save(os.path.join(work, name))
+                        return {'reproduced': True, 'detail': 'save(%s) of statistics loaded from a zero-count table (nothing accumulated) did not raise' % name}
                     Standardize().save(os.path.join(work, name))
                     return {'reproduced': True, 'detail': 'save(%s) without statistics did not raise' % name}
                 except ValueError:
